@@ -75,9 +75,12 @@ macro_rules! impl_scan_unsigned {
                     res = res.checked_mul(10).ok_or_else(|| {
                         S::Error::custom("decimal number overflow")
                     })?;
-                    res += ch.into_digit(10).map_err(|_| {
+                    let digit = ch.into_digit(10).map_err(|_| {
                         S::Error::custom("expected decimal number")
                     })? as $type;
+                    res = res.checked_add(digit).ok_or_else(|| {
+                        S::Error::custom("decimal number overflow")
+                    })?;
                     Ok(())
                 })?;
                 Ok(res)
@@ -99,9 +102,12 @@ impl<S: Scanner> Scan<S> for Ttl {
             res = res
                 .checked_mul(10)
                 .ok_or_else(|| S::Error::custom("decimal number overflow"))?;
-            res += ch
+            let digit = ch
                 .into_digit(10)
                 .map_err(|_| S::Error::custom("expected decimal number"))?;
+            res = res
+                .checked_add(digit)
+                .ok_or_else(|| S::Error::custom("decimal number overflow"))?;
             Ok(())
         })?;
         Ok(Ttl::from_secs(res))
